@@ -224,8 +224,17 @@ int main(void)
 		cfg_include_stack[DEPTH - 1].filename = name_parent;
 		cfg_include_stack[DEPTH - 1].line = (unsigned)vin_saved_line;
 		BEGIN(SC);
+#ifdef RDFAIL
+		cfg_input_failed = &fake_fp[1]; /* the last read of the current source failed (what YY_INPUT records) */
+#endif
 		tok = cfg_yylex(&cfg);
-#if SC == 3
+#ifdef RDFAIL
+		V_ASSERT(tok == 0 && n_err >= 1, "[C13] a source that cannot be read (directory, I/O error) is a reported parse error, never taken for an empty file");
+#if SC != 3
+		V_ASSERT(cfg_input_failed == NULL, "[C08] a reported read failure is forgotten");
+#endif
+		V_WITNESS("rdfail");
+#elif SC == 3
 		V_ASSERT(tok == 0 && n_err >= 1, "[C03] an unterminated single-quoted string is rejected, also at the end of an included file");
 		V_WITNESS("sq");
 #else
